@@ -4143,6 +4143,12 @@ class TLSConnection(TLSRecordLayer):
                     # groups that we support
                     supported = clientHello.getExtension(ExtensionType
                                                          .supported_groups)
+                    if supported is None:
+                        for result in self._sendError(
+                                AlertDescription.missing_extension,
+                                "Client sent key_share but no "
+                                "supported_groups extension"):
+                            yield result
                     supported_ids = supported.groups
                     selected_group = next((i for i in acceptable_ids
                                            if i in supported_ids), None)
